@@ -233,7 +233,7 @@ func c20Run(c *ev.Ctx) {
 
 func init() {
 	ev.Register(&ev.Driver{Prop: "C20", Level: "exploration",
-		Rule: "complete flag space of `lz4c compress` (-size {64K,256K,1M,4M} x -bc x -sc x -l {0,1,9} (thorough 0..9) x -c {1,2}) x file sizes {0,1,B-1,B,B+1,2B+5} (contents alternating zeros/incompressible, permission bits cycling 0644/0600/0755, every 4th case through stdin/stdout, every 8th a two-file invocation), each compressed and uncompressed by the binary built from the working tree; the .lz4 file is parsed by the strict reference parser and its descriptor compared with the flags. Non-trivial = every case.",
+		Rule:        "complete flag space of `lz4c compress` (-size {64K,256K,1M,4M} x -bc x -sc x -l {0,1,9} (thorough 0..9) x -c {1,2}) x file sizes {0,1,B-1,B,B+1,2B+5} (contents alternating zeros/incompressible, permission bits cycling 0644/0600/0755, every 4th case through stdin/stdout, every 8th a two-file invocation), each compressed and uncompressed by the binary built from the working tree; the .lz4 file is parsed by the strict reference parser and its descriptor compared with the flags. Non-trivial = every case.",
 		Assumptions: []string{"lz4c is built against the working tree with a generated go.mod (replace => /repo); the shipped go.mod pins a released version of the library", "progress output and exit codes on failure are not judged"},
 		Run:         c20Run,
 		Shards:      func(string) int { return 16 },
